@@ -45,3 +45,75 @@ def call_watcher_outcome(ctx, trig, onlychanged, changed, batch, prequeued="none
     if len(res) != 1:
         raise AnalysisError("_call_watcher has several outcomes for one abstract input: %s" % res)
     return res.pop(), ns, w, len(pre)
+
+
+def execute_watcher_model(ctx, rule):
+    """Parameters._execute_watcher interpreted abstractly: calling mode (args / kwargs) x synchronous / coroutine callback, for
+    two events whose parameters have been assigned AGAIN since (the owner's current attribute values differ from the
+    values the events installed -- an earlier watcher of the same event re-assigned them).
+
+    Specification: an args-mode callback receives exactly the events, a kwargs-mode callback exactly
+    {name: the value THAT event installed}; a coroutine callback is scheduled once with the same arguments; Skip raised
+    by the callback is swallowed, nothing else."""
+    from engine.absint import _Raise
+    f = ctx.repo.func(P + "Parameters._execute_watcher")
+    problems, n = [], 0
+    for mode, is_async, raises_skip in [(m, a, s) for m in ("args", "kwargs") for a in (False, True) for s in (False, True) if not (a and s)]:
+        va, vb = Obj("value_installed_by_event_a"), Obj("value_installed_by_event_b")
+        owner = Obj("owner", a=Obj("value_assigned_later_to_a"), b=Obj("value_assigned_later_to_b"))
+        e1 = Obj("event_a", name="a", new=va, old=Obj("old_a"), obj=owner)
+        e2 = Obj("event_b", name="b", new=vb, old=Obj("old_b"), obj=owner)
+        fn = Obj("callback", __callable__=True)
+        w = Obj("watcher", mode=mode, fn=fn)
+        called, scheduled = [], []
+
+        def hook(name, args, kwargs):
+            if name == "iscoroutinefunction":
+                return is_async
+            if name == "watcher.fn":
+                called.append((tuple(args), dict(kwargs)))
+                if raises_skip:
+                    raise _Raise("Skip")
+                return None
+            if name == "partial":
+                return Obj("partial", args=tuple(args), kwargs=dict(kwargs))
+            if name == "async_executor":
+                scheduled.append(args[0] if args else None)
+                return None
+            return NotImplemented
+        ns = Obj("ns", self_or_cls=owner, self=owner)
+        it = Interp(ctx.hier, dyn=P + "Parameters", inline=lambda m: False, call_hook=hook, globals={"async_executor": Obj("executor"), "Skip": Obj("Skip")})
+        try:
+            outs = it.run_all(f, {f.params[0]: ns, "watcher": w, "events": [e1, e2]})
+        except Unsupported as e:
+            raise AnalysisError("dispatch model: absint cannot interpret _execute_watcher: %s" % e)
+        if len(outs) != 1 or outs[0].imprecise:
+            raise AnalysisError("dispatch model: _execute_watcher is not interpretable precisely (%s)" % (outs[0].notes[:2] if outs else "no outcome"))
+        n += 1
+        desc = "%s-mode %s callback%s" % (mode, "coroutine" if is_async else "synchronous", " that raises Skip" if raises_skip else "")
+        if outs[0].kind != "return":
+            problems.append("%s: _execute_watcher raises %s" % (desc, outs[0].value))
+            continue
+        if is_async:
+            got = [(s.attrs.get("args", ())[1:], s.attrs.get("kwargs", {})) for s in scheduled if isinstance(s, Obj)]
+            if called or len(scheduled) != 1 or not (scheduled[0].attrs.get("args", (None,))[0] is fn):
+                problems.append("%s: called %d time(s) directly, scheduled %d time(s); specification: scheduled exactly once" % (desc, len(called), len(scheduled)))
+                continue
+        else:
+            got = called
+            if len(called) != 1 or scheduled:
+                problems.append("%s: called %d time(s), scheduled %d time(s); specification: called exactly once" % (desc, len(called), len(scheduled)))
+                continue
+        a, k = got[0]
+        if mode == "args":
+            if len(a) != 2 or a[0] is not e1 or a[1] is not e2 or k:
+                problems.append("%s: receives %r %r, specification: exactly the events" % (desc, a, k))
+        else:
+            if a or set(k) != {"a", "b"} or k.get("a") is not va or k.get("b") is not vb:
+                problems.append("%s: receives %s, specification {a: the value event a installed, b: the value event b installed} -- not what the attribute holds by the time the "
+                                "callback runs (an earlier watcher may have assigned it again; that assignment has its own event)" % (desc, {x: getattr(y, "name", y) for x, y in k.items()}))
+    ctx.abstract_cases += n
+    if problems:
+        ctx.fail(rule, f, f.node, "dispatch model (_execute_watcher): %s (%d disagreeing case(s))" % (problems[0], len(problems)), key=f.qualname + "::execute-model")
+    else:
+        ctx.ok(rule, f, f.node, "dispatch model: _execute_watcher hands an args-mode callback the events and a kwargs-mode callback the values the events installed; coroutines scheduled once; Skip swallowed (%d cases)" % n)
